@@ -100,6 +100,7 @@ fn witnesses(ctx: &mut Ctx) {
         "C07" => dictprops::c07_witnesses(ctx),
         "C10" => miscprops::c10_witnesses(ctx),
         "C14" => trainprops::c14_witness_no_bigram_feature(ctx),
+        "C20" => miscprops::c20_witness_empty_expansion(ctx),
         "C16" => {
             trainprops::c16_witness_dual_clamp(ctx);
             trainprops::c16_witness_star_feature(ctx);
